@@ -69,3 +69,24 @@ def compare_closed_form(expr, mono, runs, N, tol_digits=40):
                 return {"first_n": n, "point": env, "uninit": {k: fmt(v) for k, v in un.items()},
                         "polar": fmt(pv), "truth": fmt(truth)}, skipped
     return None, skipped
+
+
+class NotRational(Exception):
+    pass
+
+
+def exact_fraction(e):
+    """sympy number -> Fraction without guessing (nsimplify invents closed forms for radicals): Rational, decimal Float, or simplifies to one"""
+    import sympy
+
+    e = sympy.sympify(e)
+    if e.is_Rational:
+        return Fraction(int(e.p), int(e.q))
+    if e.is_Float:
+        return Fraction(str(e))
+    e2 = sympy.simplify(e)
+    if e2.is_Rational:
+        return Fraction(int(e2.p), int(e2.q))
+    if e2.is_Float:
+        return Fraction(str(e2))
+    raise NotRational(str(e2)[:200])
